@@ -182,8 +182,13 @@ func checkH(c HCase, e *env.Env) (*hx.Violation, hinfo) {
 		}
 		return nil, inf
 	case p2-p1 > int64(c.TTL)*1000:
-		if pr.Code == 410 {
+		// between ttl and ttl + 10 s (the documented margin) both answers are accepted - unless the two request instants
+		// themselves lie within the ttl: the statement promises a patch for any t1 < t2 within the time-to-live
+		if pr.Code == 410 && c.T2-c.T1 > int64(c.TTL)*1000 {
 			return nil, inf
+		}
+		if pr.Code == 410 {
+			return hx.V("gone-within-ttl", "%s: the two instants are %d ms apart, within the ttl of %d s (publish times %d ms apart), yet the patch request -> 410", purl, c.T2-c.T1, c.TTL, p2-p1), inf
 		}
 	}
 	if pr.Code != 200 {
